@@ -44,7 +44,10 @@ def cases(tier, seed):
               ("json", 1.5), ("json", 0.0), ("json", []), ("json", [1]), ("json", ["models.jsonmodels.Box"]),
               ("json", {}), ("json", {"a": 1}), ("json", {"__json_type__": "uuid.UUID"}), ("json", ""), ("json", " "),
               ("json", "."), ("json", ".."), ("json", "..."), ("json", "Box"), ("json", "nodots"), ("json", "\x00"),
-              ("json", "a.b.c.d.e.f.g")):
+              ("json", "a.b.c.d.e.f.g"),
+              # very long dotted paths: importlib imports the parents of a dotted name recursively
+              ("json", "a." * 3000 + "X"), ("json", "models." + "a." * 3000 + "X"), ("json", "models.jsonmodels." + "Box." * 2000 + "Box"),
+              ("json", "." * 3000 + "X"), ("json", "x" * 100000 + ".Y")):
         out.append(v)
     seen = set()
     for pre, m, sep, a, post in itertools.product(PRE, MODULES, SEPS, ATTRS, POST):
